@@ -11,11 +11,13 @@ PASS, FAIL, INCONCLUSIVE = "PASS", "FAIL", "INCONCLUSIVE"
 
 class Ob:
     def __init__(self, rule, instance, outcome, where="", why="", key=None, path=None, extra=None):
+        def one_line(t):
+            return t.replace("\r", "\\r").replace("\n", "\\n") if isinstance(t, str) else t
         self.rule = rule
-        self.instance = instance
+        self.instance = one_line(instance)
         self.outcome = outcome
         self.where = where
-        self.why = why
+        self.why = one_line(why)
         self.key = key or instance
         self.path = path or []
         self.extra = extra or {}
